@@ -13,6 +13,7 @@ CONSTANTS
   EmitMode = "state"
   Record = TRUE
   Eager = TRUE
+  BatchBug = FALSE
 VIEW View0
 INVARIANTS TypeOK PerSeriesOrder NoDup NoDropLeak Conservation ShardFifo Complete EmitState EmitFinal
 ACTION_CONSTRAINT Emit
